@@ -93,6 +93,16 @@ func genC18(g *Gen, tier string, w *bufio.Writer) {
 		width := len(cols)
 		mk := func(cols []int, retr bool) opsStream { return genTimed(g, cols, n, retr, wmEvery) }
 
+		// instants outside the int64 range of Time.UnixNano (before 1677 / after 2262) are legal event times: the buffer's
+		// order and its release test must agree on them too
+		if i%10 == 0 {
+			early := []string{"-14830000000000000000", "-9300000000000000000", "-9223372036854775809"}
+			late := []string{"16700000000000000000", "9223372036854775808"}
+			fmt.Fprintf(w, "etbuf | N R2 i1 i2 + %s ; R2 i3 i4 + %d ; W%d ; R2 i5 i6 + %d ; R2 i7 i8 + %s ; W%d ; R2 i9 i0 + %d\n",
+				Pick(g, early), 1000+g.Intn(500), 500+g.Intn(400), 2000+g.Intn(500), Pick(g, late), 3000+g.Intn(100), 4000+g.Intn(100))
+			fmt.Fprintf(w, "etbuf | N R2 i1 i2 + %d ; R2 i3 i4 + %s ; R2 i5 i6 + %s ; W%s ; R2 i7 i8 + %d ; W%d\n",
+				5+g.Intn(5), early[0], early[1], early[2], 20+g.Intn(5), 10+g.Intn(5))
+		}
 		// the buffer itself: most of the budget
 		for k := 0; k < 3; k++ {
 			fmt.Fprintf(w, "etbuf | %s\n", srcTokens(g, mk(cols, g.Bool()), k == 2))
